@@ -137,6 +137,17 @@ def perm_case(draw, tier="quick"):
     elem = st.one_of(st.none(), *[V.SCALARS[k] for k in kinds]) if draw(st.booleans()) else \
         st.one_of(*[V.SCALARS[k] for k in kinds])
     xs = draw(st.lists(elem, min_size=n, max_size=n))
+    if draw(st.integers(0, 7)) == 0:
+        # long and nearly uniform: one value repeated 65..140 times, one or two values of a neighbouring class somewhere
+        # (inference must not depend on the length, nor on where the odd value sits)
+        lo, hi = draw(st.sampled_from([("date", "datetime"), ("bool", "int"), ("int", "float"), ("float", "complex"), ("int", "str"),
+                                       ("datetime", "date"), ("int", "bool")]))
+        n = draw(st.integers(65, 140))
+        xs = [draw(V.SCALARS[lo])] * n
+        for _ in range(draw(st.integers(1, 2))):
+            xs[draw(st.sampled_from([n - 1, 0, n // 2, 64, min(65, n - 1)]))] = draw(st.one_of(V.SCALARS[hi], V.SCALARS[hi], st.none()))
+        perm = list(range(n - 1, -1, -1)) if draw(st.booleans()) else list(range(1, n)) + [0]
+        return {"xs": xs, "perm": perm}
     perm = draw(st.permutations(list(range(n))))
     return {"xs": xs, "perm": perm}
 
@@ -170,7 +181,7 @@ def run_perm(case, ctx):
 # ---------------------------------------------------------------- part 4: results typed by the same rule
 @st.composite
 def result_case(draw, tier="quick"):
-    op = draw(st.sampled_from(["arith", "join", "agg", "csv"]))
+    op = draw(st.sampled_from(["arith", "join", "agg", "csv", "concat"]))
     n = draw(st.integers(1, 5))
     num = st.sampled_from(["bool", "int", "float"])
     if op == "arith":
@@ -178,6 +189,10 @@ def result_case(draw, tier="quick"):
         a = draw(V.column(kind=ka, min_size=n, max_size=n, elements=V.MODERATE[ka]))[1]
         b = draw(V.column(kind=kb, min_size=n, max_size=n, elements=V.MODERATE[kb]))[1]
         return {"op": op, "a": a, "b": b, "scalar": draw(st.one_of(V.small_ints, V.small_floats))}
+    if op == "concat":
+        ka = draw(st.sampled_from(["bool", "int", "float", "str", "date", "datetime"]))
+        kb = ka if draw(st.booleans()) else draw(st.sampled_from(["bool", "int", "float", "str", "date", "datetime"]))
+        return {"op": op, "a": draw(V.column(kind=ka, min_size=n, max_size=n))[1], "b": draw(V.column(kind=kb, min_size=1, max_size=4))[1]}
     if op == "join":
         m = draw(st.integers(1, 5))
         keys = st.one_of(st.integers(0, 3), st.none())
@@ -238,6 +253,30 @@ def run_result(case, ctx):
                     return ctx.fail(f"result/arith-{tag}/got-{_name(got)}-for-{_name(want)}",
                                     f"{name}: values {vals!r} reported as {got}")
         if {type(x) for x in case["a"]} != {type(x) for x in case["b"]}:
+            ctx.nontrivial()
+        return
+    if op == "concat":
+        # << : the result is typed by the rule applied to all its values (a None on either side makes it nullable, kinds join)
+        a = Vector(list(case["a"]))
+        for form, rhs in (("vector", Vector(list(case["b"]))), ("list", list(case["b"])), ("tuple", tuple(case["b"]))):
+            ctx.ev()
+            try:
+                r = a << rhs
+            except Exception:  # noqa: BLE001  (kinds that do not stack)
+                ctx.label("concat_refused")
+                continue
+            vals = list(r)
+            if len(vals) != len(case["a"]) + len(case["b"]) or isinstance(r, Table):
+                continue
+            # << promotes the left operand's dtype with the appended values: an all-None left operand is object? (the top of
+            # the lattice) and stays there; in every other case promotion and inference over all values coincide
+            want, got = ref_dtype(vals), _dt(r.schema())
+            if all(x is None for x in case["a"]):
+                want = (object, True)
+            if got != want:
+                why = "nullable-dropped" if (got is not None and got[0] is want[0]) else "kind"
+                return ctx.fail(f"result/concat-{form}/{why}/got-{_name(got)}-for-{_name(want)}", f"{case['a']!r} << {case['b']!r} ({form}): values {vals!r} reported as {got}")
+        if None in case["b"] and None not in case["a"]:
             ctx.nontrivial()
         return
     if op == "join":
